@@ -1125,6 +1125,14 @@ static void gen_expr(Node *node) {
 
     int sz = node->lhs->ty->base->size;
     println("  xchg %s, (%%rdi)", reg_ax(sz));
+
+    // xchg has replaced only the low byte or word of %eax; the rest
+    // still belongs to the new value. Extend the old value to the
+    // size of int, as a load of a char or short does.
+    if (sz == 1)
+      println("  %s %%al, %%eax", node->ty->is_unsigned ? "movzbl" : "movsbl");
+    else if (sz == 2)
+      println("  %s %%ax, %%eax", node->ty->is_unsigned ? "movzwl" : "movswl");
     return;
   }
   }
